@@ -109,6 +109,41 @@ Qed.
 Print Assumptions getitem_then_get_col_feat.
 
 (* ------------------------------------------------------------------ *)
+(* "The source is left unchanged" for the one object of the caller that the selection code writes next to: the index
+   tensor.  Store model (Model/FrameStore.v) of _normalize_index's tensor branch -- clone, then the masked in-place
+   += on the clone: the caller's tensor (any object that existed before) is never written, whatever it contains, and
+   the normalised index holds the wrapped entries; and this for any number of ragged containers of the frame that
+   receive the same index object one after the other. *)
+From PF Require Import Model.FrameStore Proofs.FrameStoreProofs.
+
+Theorem normalize_index_leaves_caller_index : forall (h : theap) a n,
+  let r := normalize_index_store h a n in
+  (forall b, b < length h -> hget [] (fst (fst r)) b = hget [] h b)
+  /\ Forall (fun x => length h <= x) (snd r)
+  /\ length h <= length (fst (fst r))
+  /\ hget [] (fst (fst r)) (snd (fst r)) = map (wrap_neg n) (hget [] h a).
+Proof. exact normalize_index_store_proof. Qed.
+Print Assumptions normalize_index_leaves_caller_index.
+
+Theorem getitem_leaves_caller_index : forall k (h : theap) a n,
+  a < length h ->
+  let r := getitem_index_store h a n k in
+  (forall b, b < length h -> hget [] (fst r) b = hget [] h b) /\ Forall (fun x => length h <= x) (snd r)
+  /\ length h <= length (fst r).
+Proof. exact getitem_index_store_proof. Qed.
+Print Assumptions getitem_leaves_caller_index.
+
+(* the wrapped entry is the position the pure model (norm_index, used by getitem_coherent) computes *)
+Theorem wrap_neg_is_norm_index : forall n i k, norm_index n i = Some k -> wrap_neg n i = Z.of_nat k.
+Proof. exact wrap_neg_norm_index. Qed.
+Print Assumptions wrap_neg_is_norm_index.
+
+Example ex_store_index :
+  let r := getitem_index_store [[(-1); 0; (-3)]%Z] 0 3 2 in
+  hget [] (fst r) 0 = [(-1); 0; (-3)]%Z /\ hget [] (fst r) 1 = [2; 0; 0]%Z /\ snd r = [1; 2].
+Proof. vm_compute. repeat split. Qed.
+
+(* ------------------------------------------------------------------ *)
 (* Non-vacuity: a 3-row frame with one feature of every storage kind, a target
    and an explicit row count is well-formed; selecting [2, 0] and then the
    overshooting slice [1:5] computes. *)
